@@ -55,20 +55,21 @@ type agentState struct {
 }
 
 type world struct {
-	r     *rig.Rig
-	ts    *server.Teamserver
-	addr  string
-	http  *handlers.HTTP
-	mons  []*opclient.Client
-	ags   []*agentState
-	m     *model
-	dirty bool // a goroutine of this teamserver is known to be blocked: never reuse
-	nc    int  // newcomer name counter
-	agSeq uint32
-	scen  int     // scenarios run in this world
-	calib []int64 // cumulative server->client byte offsets of TLS record ends of a quiescent login
-	tokN  int
-	id    int
+	r        *rig.Rig
+	ts       *server.Teamserver
+	addr     string
+	http     *handlers.HTTP
+	mons     []*opclient.Client
+	ags      []*agentState
+	m        *model
+	dirty    bool // a goroutine of this teamserver is known to be blocked: never reuse
+	nc       int  // newcomer name counter
+	agSeq    uint32
+	scen     int     // scenarios run in this world
+	calib    []int64 // cumulative server->client byte offsets of TLS record ends of a quiescent login
+	tokN     int
+	id       int
+	bornToks []string
 }
 
 var worldSeq atomic.Int64
@@ -137,7 +138,14 @@ func newWorld() (*world, error) {
 	}
 	w := &world{r: r, ts: r.TS, addr: fmt.Sprintf("127.0.0.1:%d", r.Port), m: newModel(), id: int(worldSeq.Add(1))}
 	for _, n := range monitorNames {
-		c, err := opclient.Connect(w.addr, n, "pw-"+n)
+		var c *opclient.Client
+		var err error
+		for try := 0; try < 4; try++ { // a reset during the TLS handshake on a loaded machine is not the code's doing
+			if c, err = opclient.Connect(w.addr, n, "pw-"+n); err == nil {
+				break
+			}
+			time.Sleep(200 * time.Millisecond)
+		}
 		if err != nil {
 			return nil, fmt.Errorf("monitor %s: %v", n, err)
 		}
@@ -157,15 +165,50 @@ func newWorld() (*world, error) {
 }
 
 func (w *world) close() {
+	for _, t := range w.bornToks {
+		born.Delete(t)
+	}
+	w.bornToks = nil
 	for _, m := range w.mons {
 		m.Close()
 	}
 	w.r.Close()
 }
 
+// token draws a fresh token and remembers how many frames every monitor had received at
+// that moment: a frame carrying the token can only arrive later, so waits need not rescan
+// a monitor's whole history.
 func (w *world) token() string {
 	w.tokN++
-	return fmt.Sprintf("tk%dq%dz", w.id, w.tokN)
+	t := fmt.Sprintf("tk%dq%dz", w.id, w.tokN)
+	if len(w.mons) > 0 {
+		b := &bornRec{cl: w.mons}
+		for _, m := range w.mons {
+			b.n = append(b.n, m.Count())
+		}
+		born.Store(t, b)
+		w.bornToks = append(w.bornToks, t)
+	}
+	return t
+}
+
+type bornRec struct {
+	cl []*opclient.Client
+	n  []int
+}
+
+var born sync.Map // token -> *bornRec
+
+func bornAt(c *opclient.Client, tok string) int {
+	if v, ok := born.Load(tok); ok {
+		b := v.(*bornRec)
+		for i, m := range b.cl {
+			if m == c {
+				return b.n[i]
+			}
+		}
+	}
+	return 0
 }
 
 var tokRe = regexp.MustCompile(`tk[0-9]+q[0-9]+z`)
@@ -202,7 +245,11 @@ func (w *world) newcomerName() string {
 
 // waitTok waits until client c has received a frame carrying tok.
 func waitTok(c *opclient.Client, tok string, d time.Duration) bool {
+	from := bornAt(c, tok)
 	_, ok := c.WaitFor(func(f opclient.Frame) bool {
+		if f.Seq < from {
+			return false
+		}
 		if !bytes.Contains(f.Raw, []byte(tok)) {
 			if f.Head.Event == opclient.EvSession && f.Body.SubEvent == opclient.SessOutput {
 				for _, t := range frameTokens(f) {
@@ -237,19 +284,74 @@ func (e *syncErr) Error() string { return e.what }
 func (w *world) barrier() error { return w.barrierVia(0) }
 
 func (w *world) barrierVia(by int) error {
-	tok := w.token()
-	w.m.oneShot(tok, "barrier")
-	w.m.lastBarrier = tok
-	if err := oneShotChat(w.mons[by], "BARRIER "+tok); err != nil {
-		return &syncErr{"barrier send: " + err.Error()}
+	// (1) monitor `by` sends four one-shot chats in a row: its handler finishes
+	// broadcasting one before it reads the next, so whoever holds a later one must hold
+	// every earlier one (a gap is a lost broadcast, logically, without any deadline).
+	// (2) every other monitor sends one fence chat. Once every monitor has received the
+	// last message of every monitor, each operator handler has written its final
+	// broadcast to all clients that can acknowledge: nothing an operator caused is in
+	// flight (an echo to the sender alone would not show that: the sender may be the
+	// first client the broadcast visits).
+	const k = 4
+	var toks []string
+	for i := 0; i < k; i++ {
+		t := w.token()
+		w.m.oneShot(t, "barrier:"+w.mons[by].User)
+		toks = append(toks, t)
 	}
+	last := []string{toks[k-1]}
+	defer func() { w.m.lastBarrier = last }()
 	for i, m := range w.mons {
-		if !waitTok(m, tok, syncWait) {
-			return &syncErr{fmt.Sprintf("barrier %s not delivered to monitor %d (closed=%v)", tok, i, m.Closed())}
+		if i == by {
+			for _, t := range toks {
+				if err := oneShotChat(m, "BARRIER "+t); err != nil {
+					return &syncErr{"barrier send: " + err.Error()}
+				}
+			}
+			continue
+		}
+		t := w.token()
+		w.m.oneShot(t, "barrier:"+m.User)
+		if err := oneShotChat(m, "FENCE "+t); err != nil {
+			return &syncErr{"fence send: " + err.Error()}
+		}
+		last = append(last, t)
+	}
+	deadline := time.Now().Add(syncWait)
+	var late error
+	for i, m := range w.mons {
+		for _, t := range last {
+			d := time.Until(deadline)
+			if d < 0 {
+				d = 0
+			}
+			if !waitTok(m, t, d) && late == nil {
+				late = &syncErr{fmt.Sprintf("barrier %s not delivered to monitor %d (closed=%v)", t, i, m.Closed())}
+			}
 		}
 	}
-	return nil
+	for _, m := range w.mons {
+		highest := -1
+		for i := range toks {
+			if waitTok(m, toks[i], 0) {
+				highest = i
+			}
+		}
+		for i := 0; i < highest; i++ {
+			if !waitTok(m, toks[i], 0) {
+				return &lossErr{finding{Sig: "live:broadcast-not-delivered",
+					What: "an authenticated operator received a later one of several consecutive broadcasts of one sender but not an earlier one",
+					Det:  map[string]any{"operator": m.User, "token": toks[i], "source": "op:" + w.mons[by].User}}}
+			}
+		}
+	}
+	return late
 }
+
+// lossErr: a harness-side synchronisation step found a broadcast logically missing.
+type lossErr struct{ f finding }
+
+func (e *lossErr) Error() string { return e.f.Sig + ": " + e.f.What }
 
 // ---- agents ----
 
